@@ -511,6 +511,10 @@ type ZipArchEntry struct {
 	Name     string
 	Declared uint64
 	Content  []byte
+	// Mode, when non-zero, is stored in the header (unix mode in the external attributes);
+	// it need not agree with the name: a directory bit on a name without trailing slash, a
+	// regular mode on a name with one, a symbolic link.
+	Mode os.FileMode
 }
 
 // ZipWriteArchive encodes the entries. Entries whose declared size is honest are written
@@ -521,7 +525,7 @@ func ZipWriteArchive(r *rand.Rand, entries []ZipArchEntry) ([]byte, error) {
 	zw := zip.NewWriter(&buf)
 	for _, e := range entries {
 		honest := e.Declared == uint64(len(e.Content))
-		if honest && !strings.HasSuffix(e.Name, "/") && (r == nil || r.Intn(2) == 0) {
+		if honest && e.Mode == 0 && !strings.HasSuffix(e.Name, "/") && (r == nil || r.Intn(2) == 0) {
 			w, err := zw.Create(e.Name)
 			if err != nil {
 				return nil, err
@@ -533,6 +537,9 @@ func ZipWriteArchive(r *rand.Rand, entries []ZipArchEntry) ([]byte, error) {
 		}
 		fh := &zip.FileHeader{Name: e.Name, Method: zip.Store, CRC32: crc32.ChecksumIEEE(e.Content),
 			CompressedSize64: uint64(len(e.Content)), UncompressedSize64: e.Declared}
+		if e.Mode != 0 {
+			fh.SetMode(e.Mode)
+		}
 		w, err := zw.CreateRaw(fh)
 		if err != nil {
 			return nil, err
@@ -632,7 +639,31 @@ func ZipHostileArchive(r *rand.Rand, m module.Version) []ZipArchEntry {
 				e.Declared = []uint64{1 << 63, 1<<63 - 1, 1<<64 - 1, 1 << 32, 1<<32 - 1}[r.Intn(5)]
 			}
 		}
+		if !calm && r.Intn(6) == 0 {
+			// header mode bits, agreeing with the name or not
+			e.Mode = []os.FileMode{os.ModeDir | 0o755, os.ModeDir | 0o755, 0o644, os.ModeSymlink | 0o777, os.ModeNamedPipe | 0o644, os.ModeDir | os.ModeSymlink | 0o777}[r.Intn(6)]
+		}
 		es = append(es, e)
+	}
+	if !calm && r.Intn(8) == 0 {
+		// entries that only a header-based notion of "directory" would treat differently
+		m := []ZipArchEntry{
+			{Name: prefix + "sub/go.mod", Content: []byte("module m\n"), Mode: os.ModeDir | 0o755},
+			{Name: prefix + "GO.MOD", Content: []byte("module m\n"), Mode: os.ModeDir | 0o755},
+			{Name: prefix + "a", Content: []byte("x"), Mode: os.ModeDir | 0o755},
+			{Name: prefix + "a/b.go", Content: []byte("package a\n")},
+			{Name: prefix + "d/", Mode: 0o644},
+			{Name: prefix + "go.mod", Content: []byte("module m\n"), Mode: os.ModeDir | 0o755, Declared: uint64(zMaxGoMod) + 1},
+		}
+		k := 1 + r.Intn(3)
+		for i := 0; i < k; i++ {
+			e := m[r.Intn(len(m))]
+			if e.Declared == 0 {
+				e.Declared = uint64(len(e.Content))
+			}
+			es = append(es, e)
+		}
+		r.Shuffle(len(es), func(i, j int) { es[i], es[j] = es[j], es[i] })
 	}
 	return es
 }
